@@ -272,6 +272,12 @@ def run(index, rep, tier):
                     txt = re.sub(r"\b%s\b" % re.escape(nm), c, txt)
                 if src:
                     txt = re.sub(r"\b%s\b" % re.escape(src), "$src", txt)
+                # the two ways of adopting the deep copy's state are one update: since the annotations are re-targeted
+                # afterwards (R12.11) it no longer matters whether the instance dict is shared or filled
+                m_ad = re.match(r"^self\.__dict__(?: = |\.update\()(\$?\w+)\.__dict__\)?$", txt)
+                if m_ad:
+                    sig.add(("adopt", "self adopts the state of %s" % m_ad.group(1)))
+                    continue
                 sig.add((w.kind, txt[:120]))
             sigs[cq] = (g, sig)
         allsig = [v[1] for v in sigs.values()]
@@ -518,7 +524,10 @@ def run(index, rep, tier):
             for fi in index.functions_in_module(m):
                 g = None
                 for st in walk_no_nested(fi.node):
-                    if isinstance(st, ast.Assign) and norm(st.targets[0]) == "self.__dict__" and isinstance(st.value, ast.Attribute) and st.value.attr == "__dict__":
+                    adopt_assign = isinstance(st, ast.Assign) and norm(st.targets[0]) == "self.__dict__" and isinstance(st.value, ast.Attribute) and st.value.attr == "__dict__"
+                    adopt_update = isinstance(st, ast.Expr) and isinstance(st.value, ast.Call) and norm(st.value.func) == "self.__dict__.update" and st.value.args and isinstance(st.value.args[0], ast.Attribute) \
+                        and st.value.args[0].attr == "__dict__" and norm(st.value.args[0].value) != "self" and fi.name == "_clone_from"
+                    if adopt_assign or adopt_update:
                         n11 += 1
                         g = g or cfg_of(fi)
                         nd = node_of_ast(g, st)
